@@ -12,41 +12,67 @@ from checks import dsgen
 
 TRUST = ("Lean 4.33 kernel; axioms at most propext/Classical.choice/Quot.sound (audited per run); "
          "optimalBatchSizes/batchPartitioning are machine-translated from the C++ on every run (clang-14 JSON AST -> Lean, "
-         "translate/batch_arith.py is trusted, and cross-checked by the correspondence); the container operations are a "
-         "hand-written model (Model/Dataset.lean) tied to the C++ by the differential correspondence only (generator-bounded); ")
+         "translate/batch_arith.py is trusted, and cross-checked by the correspondence); the container operations are hand-written "
+         "models (Model/Dataset.lean: values; Model/DatasetShared.lean: the shared batch pointers) tied to the C++ by the differential "
+         "correspondence only (generator-bounded); ")
 MANIFEST = dict(
   text=("Theorems (Props/C03.lean, re-proved on every run against the regenerated batch arithmetic), for all element types, sizes, batch sizes, "
         "partitions and operation histories: (A) the machine-translated optimalBatchSizes is, for n>0 and m>0, inside defined arithmetic and returns "
-        "ceil(n/m) batch sizes that sum to n, lie in [1,m] and differ by at most 1; for n=0 it is either undefined (division by zero, finding F1) "
-        "or empty (repaired source) -- which one holds is evaluated and reported on every run; the copy of the arithmetic in createDataFromRange "
-        "agrees with it. (B) createDataFromRange, repartition (incl. its element-by-element copy loop, proved equal to the abstract cut), splitBatch, "
-        "splice, append, push_back, indexedSubset (+ complement: a partition of the elements), transform and reorderElements map the flat element "
+        "ceil(n/m) batch sizes that sum to n, lie in [1,m] and differ by at most 1; for n=0 it is empty (repaired source; evaluated and reported on "
+        "every run); the copy of the arithmetic in createDataFromRange agrees with it. (B) createDataFromRange, repartition (incl. its "
+        "element-by-element copy loop, proved equal to the abstract cut; defined only for sizes summing to n), splitBatch, "
+        "splice, append, push_back, indexedSubset (+ complement for index lists of ANY form -- unsorted, duplicates, empty: subset = listed batches "
+        "in listed order, complement = the unlisted batches once each in ascending order; for duplicate-free lists a partition), transform (also to another "
+        "element type) and reorderElements map the flat element "
         "sequence exactly as documented, keep shape and partitioning as documented; reorderElements with a permutation (shuffle) preserves the "
         "multiset. (C) for every partition into non-empty batches the DataElementIterator state machine makes elements(), element(i), reverse "
         "iteration and batches() yield the same sequence (Data and LabeledData); ++/-- are mutually inverse across batch borders; it += n lands on the "
         "canonical (batch, offset) of p+n for every signed n; batch sizes sum to numberOfElements. (D) LabeledData: createLabeledDataFromRange, "
-        "repartition, splitBatch, splice, splitAtElement (first k pairs stay), append, push_back, indexedSubset, reorderElements, transformLabels/Inputs keep inputs "
+        "repartition, splitBatch, splice, splitAtElement (first k pairs stay; at 0 everything moves, at n nothing), append, push_back, indexedSubset, "
+        "the two-result indexedSubset on inputs and labels, reorderElements, transformLabels/Inputs keep inputs "
         "and labels in the same partitioning and never separate an input from its label. (E) every finite history of repartition / splitBatch / "
         "reorderElements-by-permutation steps on one dataset, and of these plus splitAtElement / append / swap moving elements between two datasets, "
         "preserves well-formedness, non-empty batches and the multiset of (input,label) pairs; in every reachable state the access paths agree. "
         "(F) repartitionByClass, whenever it succeeds (any label multiset incl. absent classes), yields a permutation of the pairs gathered class by "
         "class with ascending labels; binarySubProblem returns exactly the first run of batches of the smaller class followed by the next run of the "
-        "bigger class (on class-sorted batches: all batches of the two classes) relabelled [l = oneClass], and throws iff a run is missing; after "
-        "repartitionByClass (repaired source) every batch is non-empty, holds one class, and batch classes ascend, so binarySubProblem of it is exactly the "
+        "bigger class (on class-sorted batches: all batches of the two classes) relabelled [l = oneClass], and throws iff a run is missing; it equals "
+        "indexedSubset by the scanned batch index set + relabelling; after "
+        "repartitionByClass every batch is non-empty, holds one class, and batch classes ascend, so binarySubProblem of it is exactly the "
         "batches of the two classes; "
-        "oneVersusRest relabels in place; DataView lists the dataset in order, subsets compose, toDataset(view) holds exactly the view's elements. "
-        "The model is tied to the real Data/LabeledData/DataView code by an exact line-by-line correspondence over random operation histories (24 "
-        "operation kinds incl. shuffle with the observed permutation, binarySubProblem, oneVersusRest, element-/batch-wise transform, signed iterator "
-        "jumps) on unsigned, RealVector, CompressedRealVector and user-struct elements and on WeightedLabeledData under ASan/UBSan, plus an independent in-harness oracle that keeps "
-        "a flat std::vector beside every dataset."),
-  note=TRUST + "covered by the correspondence and the oracle only (modelled, no theorem): the two-result indexedSubset on LabeledData parts (`subc`), "
-       "Data(size, element, batchSize) batch layout beyond its sum, shapes after transform; sharing of batches between datasets (shared_ptr) and the storage "
-       "layout of sparse batches are not modelled; WeightedLabeledData is covered by the correspondence only (same model, weights checked by the oracle; "
-       "ops new/repartition/splitBatch/splitAtElement/splice/append/indexedSubset/shuffle). Open findings F1, F10, F13 (findings_proposed/C03.md; F9 was repaired upstream meanwhile) make the check print "
-       "VIOLATION on the unrepaired tree.",
-  technique="Lean 4 proofs (induction over partitions and operation histories) on a model whose batch arithmetic is regenerated from the C++ "
-            "on every run + differential correspondence with the real containers (ASan/UBSan)",
-  design="§6 C03")
+        "oneVersusRest relabels in place; DataView lists the dataset in order and numbers it 0..n-1 (index(i)), subsets compose (elements and indices), toDataset(view, m) holds exactly the view's elements, "
+        "keeps the element shapes (repaired source, F-C03-16) in batches of m (all full but the last; Data(n, x, m) alike, a single EMPTY batch for n = 0). "
+        "(G) SHARED BATCHES: Model/DatasetShared.lean makes the shared_ptr batch lists explicit (heap of batches, containers = address lists, use-counts over "
+        "all live holders incl. the dataset copies inside views). Every structural operation (copy, swap, makeIndependent, splitBatch, splice, repartition, "
+        "splitAtElement, append, push_back, indexedSubset, reorderElements/shuffle, fresh datasets, transformInputs/Labels, DataView, view subsets) only "
+        "extends the heap, keeps addresses valid and acts on the VALUES of the slots exactly like the value-level operation (simulation), for every finite "
+        "history (list induction): sharing is not observable through structural operations and no dataset other than the named targets changes "
+        "(isolation); splitBatch/splice/repartition succeed only on independent containers and throw otherwise; the only operations that overwrite an "
+        "existing batch are writes through element proxies, which leave every container not holding the written batch unchanged, and after "
+        "makeIndependent() change NO other dataset (copy-on-write discipline; witness that without it the sibling changes); repartitionByClass at the "
+        "pointer level (repartition + reorderElements) computes the value of section F and changes no other dataset. "
+        "(H) WeightedLabeledData (data + weights, every operation applied to both): repartition, splitBatch, shuffle keep inputs, labels and weights in "
+        "one partitioning and, over every finite history, the multiset of ((input,label),weight) triples -- a weight follows its element; append "
+        "concatenates and splice splits the triple sequence, indexedSubset keeps the three partitionings equal. "
+        "The models are tied to the real Data/UnlabeledData/LabeledData/WeightedLabeledData/DataView code by an exact line-by-line correspondence over "
+        "random operation histories (40 operation kinds: the 24 of before plus makeIndependent, the raw guarded operations without makeIndependent "
+        "(exception expected exactly when the model's use-counts say shared), swap, in-place writes through dataset and view element proxies, "
+        "UnlabeledData::shuffle, randomSubset with the observed draw, Data(n, x, m) incl. n = 0, the empty range, transform through another element "
+        "type and batch-wise over sparse batches; after every op the independence flags of every container are compared with the model's use-counts) "
+        "on unsigned, RealVector, CompressedRealVector and user-struct elements and on WeightedLabeledData under ASan/UBSan, plus an independent "
+        "in-harness oracle that keeps a flat std::vector beside every dataset, re-reads every state through the const and non-const element/batch "
+        "proxies and repeats every iterator jump on Data<I>, Data<label> (const and non-const) and LabeledData iterators with +=, -=, +, ++/--."),
+  note=TRUST + "covered by the correspondence and the oracle only (modelled, no theorem): Data(n, x, m) being filled through the element iterator, "
+       "randomSubset drawing distinct positions (observed draw checked), the value a write through a proxy leaves in the writer itself when it holds "
+       "a batch twice, bootstrap (oracle only: weights count k draws), weightedInputs(), the weights container of WeightedLabeledData sharing "
+       "exactly like the label container (oracle), binarySubProblem/repartitionByClass at the pointer level (shared inputs, fresh labels; value "
+       "level proved); the storage layout of sparse batches is not modelled. Datasets with an EMPTY batch (Data(0, x, m), appended anywhere) are "
+       "outside the iterator theorems (witness theorem); harness and model print `paths=na` for them and apply batch-level operations only. "
+       "Open findings F-C03-14..19 (findings_proposed/C03.md): each is probed on its own on every run and reported against known_findings.json; "
+       "while a probe fails the random stream keeps away from its trigger (evidence `stream_avoids_open_findings`) and, for F-C03-16, runs the model "
+       "with the unrepaired toDataset shape behaviour (`legacy-v2d-shape`).",
+  technique="Lean 4 proofs (induction over partitions and operation histories; simulation of a pointer-sharing model by a value model) on models whose "
+            "batch arithmetic is regenerated from the C++ on every run + differential correspondence with the real containers (ASan/UBSan)",
+  design="§6 C03, §14 C03")
 
 FINISH = dict(level="proof",
               rule="histories of dataset operations generated against the Lean model from one SplitMix64 stream; a case is non-trivial if it "
@@ -54,7 +80,6 @@ FINISH = dict(level="proof",
 
 LAKE_TARGETS = ["SharkVerif.Props.C03", "drv_c03"]
 TYPES = [("uint", []), ("real", ["3"]), ("sparse", ["7"]), ("blob", [])]
-RNG_OPS = "shuffle"
 
 
 def translate(ctx):
@@ -112,20 +137,48 @@ def gen_labels(r, n):
     return [r.choice(pool) for _ in range(n)]
 
 
-W_OPS = {"new", "repart", "splitb", "splitat", "splice", "append", "subset", "shuffle", "copy"}
-BRANCHES = [(6, "new"), (16, "repart"), (24, "splitb"), (31, "splitat"), (35, "splice"), (41, "append"), (44, "pushb"),
-            (50, "subset"), (54, "subc"), (62, "reorder"), (67, "shuffle"), (76, "rbc"), (82, "bin"), (85, "ovr"),
-            (89, "xform"), (91, "xlab"), (93, "copy"), (96, "iter"), (100, "view")]
+W_OPS = {"new", "repart", "splitb", "splitat", "splice", "append", "subset", "shuffle", "copy", "swap", "indep",
+         "rrepart", "rsplitb", "rsplitat", "rsplice"}
+RAW = {"rrepart", "rsplitb", "rsplitat", "rsplice", "rrbc"}
+# (weight, op kind): relative frequencies of the op kinds in a history
+MIX = [(5, "new"), (2, "mk3"), (8, "repart"), (6, "splitb"), (7, "splitat"), (4, "splice"), (6, "append"), (3, "pushb"),
+       (6, "subset"), (4, "subc"), (7, "reorder"), (4, "shuffle"), (2, "ushuf"), (7, "rbc"), (5, "bin"), (3, "ovr"),
+       (5, "xform"), (2, "xlab"), (4, "copy"), (2, "swap"), (3, "indep"), (3, "rrepart"), (3, "rsplitb"), (3, "rsplitat"),
+       (2, "rsplice"), (2, "rrbc"), (4, "setel"), (2, "cpel"), (8, "iter"), (16, "view")]
 
 
-def branch_of(x):
-    return next(name for lim, name in BRANCHES if x < lim)
+def pick(r, allowed):
+    mix = [(w, k) for w, k in MIX if allowed is None or k in allowed]
+    x = r.below(sum(w for w, _ in mix))
+    for w, k in mix:
+        if x < w:
+            return k
+        x -= w
 
 
-def gen_case(ctx, r, model, maxlen, allowed=None):
+def index_list(ctx, r, nb, what):
+    """batch index list: sorted / unsorted / with duplicates / empty / everything"""
+    style = r.below(6)
+    if style == 0:
+        idx = sorted(set(r.below(nb) for _ in range(r.range(0, nb))))
+    elif style in (1, 2):
+        idx = sorted(set(r.below(nb) for _ in range(r.range(0, nb))), key=lambda _: r.next())
+    elif style == 3:
+        idx = [r.below(nb) for _ in range(r.range(1, nb + 2))]
+    elif style == 4:
+        idx = list(range(nb)); idx.reverse()
+    else:
+        idx = []
+    cls = ("empty" if not idx else "duplicates" if len(set(idx)) < len(idx) else "sorted" if idx == sorted(idx) else "unsorted")
+    ctx.hist(what + "_index_list", cls)
+    return idx
+
+
+def gen_case(ctx, r, model, maxlen, allowed=None, avoid=()):
     """one history; `model` answers with the state after every op.  `allowed`: restrict the op kinds
-    (the weighted-dataset harness supports a subset)"""
+    (the weighted-dataset harness supports a subset); `avoid`: triggers of open findings the stream keeps away from"""
     ops, base = [], 0
+    rng_seen = False      # after a shuffle the generator knows the partitioning but not the element order the real code drew
 
     def emit(text, model_text=None):
         resp = model.send(model_text or text)
@@ -135,18 +188,24 @@ def gen_case(ctx, r, model, maxlen, allowed=None):
             return None
         ops.append(text)
         ctx.hist("op_status", status)
+        if status == "exception":
+            ctx.hist("exception_at", text.split()[0])
         return dsgen.parse_state(resp)
 
     def new(slot):
         nonlocal base
-        n = r.choice([1, 1, 2, 3, 4, 5, 7, 8, 9, 13, 16, 17, 31, 32, 33, r.range(1, 70), r.range(1, 70)])
-        m = r.choice([0, 1, 2, 3, 4, max(1, n - 1), n, n + 1, n + 2, r.range(1, n + 2), r.range(1, n + 2)])
+        n = r.choice([1, 1, 1, 2, 2, 3, 4, 5, 7, 8, 9, 13, 16, 17, 31, 32, 33, r.range(1, 70), r.range(1, 70)])
+        if "empty-range" not in avoid and r.chance(1, 12):
+            n = 0
+        m = r.choice([0, 1, 2, 3, 4, max(1, n - 1), max(1, n), n + 1, n + 2, r.range(1, n + 2), r.range(1, n + 2)])
         labels = gen_labels(r, n)
         base += 100
-        ctx.hist("new_n", min(n // 10 * 10, 70)); ctx.hist("new_maxbatch_rel", "default" if m == 0 else ("1" if m == 1 else ("<n" if m < n else ("=n" if m == n else ">n"))))
+        ctx.hist("new_n", "0" if n == 0 else "1" if n == 1 else "2-9" if n < 10 else f"{min(n // 10 * 10, 70)}+")
+        ctx.hist("new_maxbatch_rel", "default" if m == 0 else ("1" if m == 1 else ("<n" if m < n else ("=n" if m == n else ">n"))))
         ctx.hist("n_mod_m", "default" if m == 0 else ("divides" if n % m == 0 else "remainder"))
         return emit(f"new {slot} {m} {base} " + " ".join(map(str, labels)))
 
+    emit("reset")                       # histories are self-contained: no object survives from the previous one
     st = new(0)
     if st is None:
         return ops
@@ -160,102 +219,262 @@ def gen_case(ctx, r, model, maxlen, allowed=None):
         A = ds[a]; n = A["n"]; part = A["part"]
         others = [k for k in range(4) if k != a]
         b = r.choice(others)
-        x = r.below(100)
-        if allowed is not None and branch_of(x) not in allowed:
-            continue
+        kind = pick(r, allowed)
+        raw = kind in RAW
+        if raw:
+            # inputs independent but labels shared: the C++ modifies the inputs and then throws (finding F-C03-17)
+            # (g++ evaluates the two splice() arguments of LabeledData::splice right to left, so "01" is a trigger as well)
+            # after a shuffle in this history the flags seen here may differ from those at run time (binarySubProblem shares
+            # the batches of two classes: which ones depends on the drawn order), so no raw operation is issued then
+            if "partial-mutation" in avoid and (A["ind"] in ("10", "01") or rng_seen):
+                ctx.count("raw_ops_avoided_open_finding")
+                continue
+            ctx.hist("raw_op_on", {"11": "independent", "00": "both-shared", "10": "labels-shared", "01": "inputs-shared"}.get(A["ind"], A["ind"]))
+            kind = kind[1:]
+        R = "r" if raw else ""
         res = None
-        if x < 6:
+        if kind == "new":
             res = new(r.below(4))
-        elif x < 16:
-            res = emit(f"repart {a} " + " ".join(map(str, composition(r, n))))
-        elif x < 24:
+        elif kind == "mk3":
+            k = r.choice([0, 0, 1, 2, 5, r.range(0, 12)])
+            m = r.choice([0, 1, 2, max(1, k), k + 1])
+            ctx.hist("sized_ctor", "n=0 (one empty batch)" if k == 0 else "n=1" if k == 1 else "n>1")
+            res = emit(f"mk3 {r.below(4)} {k} {m} {900 + r.below(50)} {r.below(3)}")
+        elif kind == "repart":
+            res = emit(f"{R}repart {a} " + " ".join(map(str, composition(r, n))))
+        elif kind == "splitb":
             bi = r.below(len(part))
-            res = emit(f"splitb {a} {bi} {r.range(0, part[bi])}")
-        elif x < 31:
-            res = emit(f"splitat {a} {b} {r.choice([0, n, r.range(0, n), r.range(0, n)])}")
-        elif x < 35:
-            res = emit(f"splice {a} {b} {r.range(0, len(part))}")
-        elif x < 41:
+            k = r.choice([0, part[bi], r.range(0, part[bi]), r.range(0, part[bi])])
+            ctx.hist("splitBatch_at", "0" if k == 0 else "size" if k == part[bi] else "inside")
+            res = emit(f"{R}splitb {a} {bi} {k}")
+        elif kind == "splitat":
+            borders = [sum(part[:i]) for i in range(len(part) + 1)]
+            k = r.choice([0, n, r.choice(borders), r.range(0, n), r.range(0, n)])
+            ctx.hist("splitAtElement_at", "0" if k == 0 else "n" if k == n else "batch-border" if k in borders else "inside-batch")
+            res = emit(f"{R}splitat {a} {b} {k}")
+        elif kind == "splice":
+            k = r.range(0, len(part))
+            ctx.hist("splice_at", "0" if k == 0 else "end" if k == len(part) else "middle")
+            res = emit(f"{R}splice {a} {b} {k}")
+        elif kind == "append":
+            ctx.hist("append_of", "empty" if ds[b]["n"] == 0 else "non-empty")
             res = emit(f"append {a} {b}")
-        elif x < 44:
-            if ds[b]["n"] > 0:
+        elif kind == "pushb":
+            if ds[b]["part"]:
                 res = emit(f"pushb {a} {b} {r.below(len(ds[b]['part']))}")
-        elif x < 50:
-            k = r.range(0, len(part))
-            idx = [r.below(len(part)) for _ in range(k)] if r.chance(1, 4) else sorted(set(r.below(len(part)) for _ in range(k)), key=lambda _: r.next())
-            tgt = r.below(4)
-            res = emit(f"subset {a} {tgt} " + " ".join(map(str, idx)))
-        elif x < 54:
-            k = r.range(0, len(part))
-            idx = sorted(set(r.below(len(part)) for _ in range(k)), key=lambda _: r.next())
+        elif kind == "subset":
+            res = emit(f"subset {a} {r.below(4)} " + " ".join(map(str, index_list(ctx, r, len(part), "subset"))))
+        elif kind == "subc":
             c = r.choice([k2 for k2 in range(4) if k2 != b])
-            res = emit(f"subc {a} {b} {c} " + " ".join(map(str, idx)))
-        elif x < 62:
+            res = emit(f"subc {a} {b} {c} " + " ".join(map(str, index_list(ctx, r, len(part), "complement"))))
+        elif kind == "reorder":
             perm = list(range(n))
             for i in range(n - 1, 0, -1):
                 j = r.below(i + 1); perm[i], perm[j] = perm[j], perm[i]
-            if r.chance(1, 8):
+            style = r.below(8)
+            if style == 0:
                 perm = [r.below(n) for _ in range(n)]       # a gather that is not a permutation
-                ctx.count("reorder_non_permutation")
+            elif style == 1:
+                perm = list(range(n))
+            elif style == 2:
+                perm = list(range(n - 1, -1, -1))
+            ctx.hist("reorder_index_list", "non-permutation" if sorted(perm) != list(range(n)) else "identity" if perm == sorted(perm) else "permutation")
             res = emit(f"reorder {a} " + " ".join(map(str, perm)))
-        elif x < 67:
+        elif kind == "shuffle":
+            rng_seen = True
             seed = r.below(100000)
-            perm = list(range(n))
-            res = emit(f"shuffle {a} {seed}", f"shuffle {a} {seed} ! " + " ".join(map(str, perm)))
-        elif x < 76:
-            res = emit(f"rbc {a} {r.choice([1, 2, 3, r.range(1, n + 2), r.range(1, n + 2)])}")
-        elif x < 82:
+            res = emit(f"shuffle {a} {seed}", f"shuffle {a} {seed} ! " + " ".join(map(str, range(n))))
+        elif kind == "ushuf":
+            rng_seen = True
+            seed = r.below(100000)
+            tgt = r.below(4)
+            res = emit(f"ushuf {a} {tgt} {seed}", f"ushuf {a} {tgt} {seed} ! " + " ".join(map(str, range(n))))
+        elif kind == "rbc":
+            res = emit(f"{R}rbc {a} {r.choice([1, 2, 3, r.range(1, n + 2), r.range(1, n + 2)])}")
+        elif kind == "bin":
             present = sorted(set(A["labels"]))
             c0 = r.choice(present); c1 = r.choice(present)
             if r.chance(1, 6): c1 = r.below(8)
             res = emit(f"bin {a} {r.below(4)} {c0} {c1}")
-        elif x < 85:
+        elif kind == "ovr":
             res = emit(f"ovr {a} {r.below(4)} {r.choice(sorted(set(A['labels'])) + [r.below(8)])}")
-        elif x < 89:
-            res = emit(f"xform {a} {r.below(4)} {r.range(0, 9)} {r.below(2)}")
-        elif x < 91:
+        elif kind == "xform":
+            mode = r.below(3)
+            ctx.hist("transform_kind", ["element-wise", "batch-wise", "through-another-element-type"][mode])
+            res = emit(f"xform {a} {r.below(4)} {r.range(0, 9)} {mode}")
+        elif kind == "xlab":
             res = emit(f"xlab {a} {r.below(4)} {r.range(0, 3)}")
-        elif x < 93:
+        elif kind == "copy":
             res = emit(f"copy {a} {b}")
-        elif x < 96:
+        elif kind == "swap":
+            res = emit(f"swap {a} {b}")
+        elif kind == "indep":
+            ctx.hist("makeIndependent_on", "shared" if "0" in A["ind"] else "independent")
+            res = emit(f"indep {a}")
+        elif kind == "setel":
+            ctx.hist("in_place_write_on", "shared" if "0" in A["ind"] else "independent")
+            res = emit(f"setel {a} {r.below(n)} {800 + r.below(90)} {r.below(4)}")
+        elif kind == "cpel":
+            ctx.hist("in_place_write_on", "shared" if "0" in A["ind"] else "independent")
+            res = emit(f"cpel {a} {r.below(n)} {r.below(n)}")
+        elif kind == "iter":
             p = r.range(0, n); q = r.range(0, n)
+            borders = [sum(part[:i]) for i in range(len(part) + 1)]
+            style = r.below(4)
+            if style == 0:
+                p = r.choice(borders); q = r.choice(borders)
+            elif style in (1, 2) and len(part) >= 3 and 0 not in part:
+                # a jump that skips at least one complete batch (both directions; the seeded iterator change needs a backward one)
+                bj = r.below(len(part) - 2); bi = r.range(bj + 2, len(part) - 1)
+                lo = borders[bj] + r.below(part[bj]); hi = borders[bi] + r.below(part[bi])
+                p, q = (hi, lo) if style == 1 or r.chance(1, 2) else (lo, hi)
+            def batch_of(x):
+                return next((i for i in range(len(part)) if x < borders[i + 1]), len(part))
+            ctx.hist("iterator_jump", "zero" if q == p else ("forward" if q > p else "backward") +
+                     (" skipping a batch" if abs(batch_of(p) - batch_of(q)) >= 2 else " within/adjacent"))
             res = emit(f"iter {a} {p} {q - p + 1000}")
         else:
             v = r.below(2)
-            y = r.below(4)
+            y = r.below(7)
             if vs.get(v) is None or y == 0:
                 res = emit(f"view {v} {a}")
-            elif y == 1:
+            elif y == 1 or y == 5:
                 sz = vs[v]
                 idx = [r.below(sz) for _ in range(r.range(0, sz + 2))] if sz else []
+                ctx.hist("view_subset_of", "view-subset" if y == 5 else "any")
                 res = emit(f"vsub {v} {r.below(2)} " + " ".join(map(str, idx)))
             elif y == 2:
                 sz = vs[v]
-                res = emit(f"v2d {v} {r.below(4)} {r.choice([0, 1, 2, 3, max(1, sz - 1), sz, sz + 1, r.range(1, sz + 2)])}")
-            else:
+                m = r.choice([0, 1, 2, 3, max(1, sz - 1), sz, sz + 1, r.range(1, sz + 2)])
+                ctx.hist("toDataset_batch", "default" if m == 0 else "empty-view" if sz == 0 else "<n" if m < sz else "=n" if m == sz else ">n")
+                res = emit(f"v2d {v} {r.below(4)} {m}")
+            elif y == 3:
                 sz = vs[v]
                 if sz:
                     idx = [r.below(sz) for _ in range(r.range(1, sz + 1))]
                     res = emit(f"vbat {v} {r.below(4)} " + " ".join(map(str, idx)))
+            elif y == 4:
+                sz = vs[v]
+                if sz:
+                    res = emit(f"vset {v} {r.below(sz)} {700 + r.below(90)} {r.below(4)}")
+            else:
+                sz = vs[v]
+                if sz:
+                    k = r.choice([0, 1, sz, r.range(0, sz)])
+                    rng_seen = True
+                    seed = r.below(100000); tgt = r.below(2)
+                    res = emit(f"vrand {v} {tgt} {k} {seed}", f"vrand {v} {tgt} {k} {seed} ! " + " ".join(map(str, range(k))))
         if res is not None:
             st = res
+            for k2 in range(4):
+                if 0 in res[1][k2]["part"]:
+                    ctx.count("states_with_an_empty_batch"); break
     return ops
 
 
-STRUCT = {"repart", "splitb", "splitat", "splice", "append", "pushb", "subset", "subc", "reorder", "shuffle", "rbc", "bin", "v2d", "vbat", "vsub"}
+STRUCT = {"repart", "splitb", "splitat", "splice", "append", "pushb", "subset", "subc", "reorder", "shuffle", "ushuf", "rbc", "bin",
+          "v2d", "vbat", "vsub", "vrand", "rrepart", "rsplitb", "rsplitat", "rsplice", "rrbc", "setel", "cpel", "vset", "swap", "mk3"}
+RNG_OPS = "shuffle,ushuf,vrand"
 
 
 def nontrivial(ops):
     return sum(1 for o in ops if o.split()[0] in STRUCT) >= 4
 
 
+# ----------------------------------------------------------------------------- probes of open findings
+def load_open(pid):
+    """corpus/<pid>/open_*.txt: minimal inputs of findings; first line `# type: <element type>`"""
+    d = os.path.join(core.VERIF, "corpus", pid)
+    out = []
+    for fn in sorted(os.listdir(d)) if os.path.isdir(d) else []:
+        if fn.startswith("open_") and fn.endswith(".txt"):
+            lines = open(os.path.join(d, fn)).read().splitlines()
+            ty = next((l.split(":", 1)[1].strip() for l in lines if l.startswith("# type:")), "uint")
+            avoid = next((l.split(":", 1)[1].strip() for l in lines if l.startswith("# avoid:")), "")
+            ops = [l.strip() for l in lines if l.strip() and not l.startswith("#")]
+            out.append((fn, ty, avoid, ops))
+    return out
+
+
+INST_PROBES = [
+    ("F-C03-14:weighted-createFromRange-not-instantiable", 1,
+     "createLabeledDataFromRange(inputs, labels, weights, batchSize) / createUnlabeledDataFromRange(data, weights, batchSize) cannot be "
+     "instantiated: the parameter `batchSize` shadows the function batchSize() the body calls (WeightedDataset.h)"),
+    ("F-C03-15:iterator-conversion:DataView-const_iterator", 2,
+     "DataView<D>::iterator does not convert to const_iterator: the converting constructor of IteratorBase names a member `position` that does not exist (DataView.h)"),
+    ("F-C03-15:iterator-conversion:DataElementIterator-assignment-no-return", 3,
+     "DataElementIterator::operator=(DataElementIterator<D> const&) (const_iterator = iterator) has no return statement: undefined behaviour when called (Impl/Dataset.inl)"),
+]
+
+
+def instantiation_probes(ctx):
+    """compile-time findings: harness/c03_inst.cpp, one case per -DCASE (syntax check only; -Werror=return-type)"""
+    src = os.path.join(core.VERIF, "harness", "c03_inst.cpp")
+    inc = ctx.shark_h()
+    hdrs = ["include/shark/Data/Dataset.h", "include/shark/Data/Impl/Dataset.inl", "include/shark/Data/DataView.h",
+            "include/shark/Data/WeightedDataset.h", "include/shark/Data/BatchInterface.h"]
+    key = core.sha("".join(core.file_sha(os.path.join(core.REPO, h)) for h in hdrs) + core.file_sha(src))[:16]
+    res = {}
+    from concurrent.futures import ThreadPoolExecutor
+    def one(pr):
+        fkey, case, what = pr
+        stamp = os.path.join(core.CACHE, f"c03inst-{key}-{case}.rc")
+        if os.path.exists(stamp):
+            txt = open(stamp).read()
+            return pr, int(txt.split("\n", 1)[0]), txt.split("\n", 1)[1]
+        rc, out = core.sh(["g++", "-std=c++11", "-fsyntax-only", "-DNDEBUG", "-Wno-all", "-Werror=return-type", f"-DCASE={case}",
+                           "-I" + inc, "-I" + os.path.join(core.REPO, "include"), src], timeout=900)
+        open(stamp, "w").write(f"{rc}\n{out[-1500:]}")
+        return pr, rc, out[-1500:]
+    with ThreadPoolExecutor(max_workers=3) as ex:
+        for (fkey, case, what), rc, out in ex.map(one, INST_PROBES):
+            res[fkey] = (rc == 0)
+            if rc != 0:
+                ctx.violation(fkey, {"probe": f"harness/c03_inst.cpp -DCASE={case}", "compiler_output": out,
+                                     "ops": [f"(compile) harness/c03_inst.cpp -DCASE={case}"]}, found_input=True, what=what)
+    ctx.cov["instantiation_probes_pass"] = res
+    return res
+
+
+OPEN_KEYS = {
+    "open_f16_todataset_shape.txt": ("F-C03-16:toDataset-drops-shape:v2d", "toDataset(view, batchSize) returns a dataset with empty inputShape()/labelShape(): the shape of the viewed dataset is not carried over"),
+    "open_f17_partial_mutation.txt": ("F-C03-17:partial-mutation-on-shared:rsplitb", "LabeledData::splitBatch (likewise repartition, splice and the weighted datasets) modifies the input container and then throws 'Container is not Independent' for the label container: inputs and labels are batched differently afterwards"),
+    "open_f18_empty_range.txt": ("F-C03-18:empty-range-division-by-zero:new", "createDataFromRange / createLabeledDataFromRange divide by zero for an empty range (the arithmetic of optimalBatchSizes copied into the template, without its guard)"),
+    "open_f18b_transform_empty.txt": ("F-C03-18:empty-range-division-by-zero:xform", "transformInputs of an empty Data<RealVector> (e.g. the right part of splitAtElement(data, n)) reads element(0) of a dataset without batches to infer the shape"),
+    "open_f19_bootstrap_size.txt": ("F-C03-19:bootstrap-index-range:boot", "bootstrap(dataset, k) draws the element indices from [0, k) instead of [0, numberOfElements()): k > n walks the iterator past the end, k < n never draws the last n-k elements"),
+}
+
+
+def run_open(ctx, exes, drv, feed, extra_driver_args):
+    """run the minimal input of every open finding on its own; returns the set of `avoid` tags that are still needed
+    and the probe cases that pass (they join the stream as ordinary corpus cases)"""
+    avoid, passing = set(), {"main": [], "w": []}
+    shapes = dict(TYPES + TYPES_W)
+    for pid in ("C03", "C03W"):
+        for fn, ty, av, ops in load_open(pid):
+            exe = exes["w" if ty.startswith("w") else "main"]
+            dcmd = [sys.executable, feed, RNG_OPS, exe, ty, "--", drv, *shapes.get(ty, [])]   # the repaired model (no legacy flag)
+            res = core.run_case(ctx, [exe, ty], dcmd, ops, env=dsgen.ASAN_ENV, timeout=120)
+            ctx.cov.setdefault("open_finding_probes", {})[fn] = "passes" if res.ok else "fails"
+            if res.ok:
+                passing["w" if ty.startswith("w") else "main"].append(ops)
+                continue
+            if av:
+                avoid.add(av)
+            key, what = OPEN_KEYS.get(fn, (f"open:{fn}", f"minimal input {fn} fails"))
+            ctx.violation(key, {"harness_cmd": [exe, ty], "driver_cmd": dcmd, "ops": ops, "impl_output": res.impl[-6:], "model_output": res.model[-6:],
+                                "first_diff_line": res.diff_at, "oracle": res.oracle[:5], "crash": res.crash, "stderr_tail": res.stderr[-1200:],
+                                "env": dsgen.ASAN_ENV}, found_input=True, what=what)
+    return avoid, passing
+
+
 def run(ctx):
     ctx.trusted += ["translator translate/batch_arith.py (clang-14 JSON AST -> Lean) for optimalBatchSizes/batchPartitioning",
                     "correspondence harness harness/c03.cpp + generator checks/c03.py (drives the Lean model interactively)",
-                    "hand-written model Model/Dataset.lean for everything except the translated batch arithmetic",
+                    "hand-written models Model/Dataset.lean (values) and Model/DatasetShared.lean (shared batch pointers) for everything except the translated batch arithmetic",
                     "ASan/UBSan runtime for the real code's memory safety (not a theorem)"]
-    ctx.assumptions += ["operations respect the C++ preconditions (indices in range, repartition sizes positive and summing to n, "
-                        "independence established by makeIndependent() before splitBatch/splice/repartition)",
+    ctx.assumptions += ["operations respect the C++ preconditions that are SIZE_CHECKs (indices in range, repartition sizes positive and summing to n); "
+                        "independence is *not* assumed: makeIndependent() and the 'Container is not Independent' exception are modelled and exercised",
                         "size_t arithmetic does not overflow 2^64 (all quantities are bounded by the element count)"]
     translate(ctx)
     ctx.prove(["SharkVerif.Props.C03"])
@@ -266,21 +485,32 @@ def run(ctx):
     drv = ctx.driver("drv_c03")
     if not exe or not exew or not drv:
         return
-    ncases, maxlen = (120, 40) if ctx.quick else (400, 150)
+    instantiation_probes(ctx)
+    feed = os.path.join(core.VERIF, "tools", "obsfeed.py")
+    avoid, passing = run_open(ctx, {"main": exe, "w": exew}, drv, feed, [])
+    ctx.cov["stream_avoids_open_findings"] = sorted(avoid)
+    legacy = ["legacy-v2d-shape"] if "v2d-shape" in avoid else []     # F-C03-16 open: the stream follows the unrepaired toDataset
+    ncases, maxlen = (110, 40) if ctx.quick else (400, 150)
     ncases = int(os.environ.get('VERIF_NCASES', ncases))          # self-tests: fewer random histories
     cases = dsgen.load_corpus("C03")
+    cases = [c for c in cases] + passing["main"]
     ctx.cov["corpus_cases"] = len(cases)
     r = ctx.rng.fork("c03")
-    model = dsgen.Model(drv, ["3"])
+    model = dsgen.Model(drv, ["3"] + legacy)
     try:
         for _ in range(ncases):
-            c = gen_case(ctx, r, model, maxlen)
+            c = gen_case(ctx, r, model, maxlen, avoid=avoid)
             if c:
                 cases.append(c)
-        wcases = dsgen.load_corpus("C03W")
+        wcases = dsgen.load_corpus("C03W") + passing["w"]
         for _ in range(ncases):
-            c = gen_case(ctx, r, model, 2 * maxlen, allowed=W_OPS)
+            c = gen_case(ctx, r, model, 2 * maxlen, allowed=W_OPS, avoid=avoid)
             if c:
+                # bootstrap probes (oracle only; `boot` changes nothing and is answered `undefined` on both sides)
+                for _ in range(2):
+                    pos = r.range(1, len(c))
+                    k = 0 if "bootstrap-size" in avoid else r.choice([0, 1, 3, r.range(1, 90)])
+                    c.insert(pos, f"boot {r.below(4)} {k} {r.below(100000)}")
                 wcases.append(c)
     finally:
         model.close()
@@ -298,25 +528,50 @@ def run(ctx):
     # which case of F1 does the current source show?  (the driver evaluates the *generated* function)
     z = dsgen.Model(drv); zr = z.send("zero"); z.close()
     ctx.cov["generated_optimalBatchSizes_at_zero"] = zr.split(" | ")[0]
-    feed = os.path.join(core.VERIF, "tools", "obsfeed.py")
     def one(t):
         ty, shape = t
         hcmd = [exe, ty]
-        dcmd = [sys.executable, feed, RNG_OPS, exe, ty, "--", drv, *shape]
-        return core.correspond(ctx, f"K-C03[{ty}]", cases, hcmd, dcmd, dsgen.classify, env=dsgen.ASAN_ENV, timeout=900 if ctx.quick else 3600)
+        dcmd = [sys.executable, feed, RNG_OPS, exe, ty, "--", drv, *shape, *legacy]
+        return core.correspond(ctx, f"K-C03[{ty}]", cases, hcmd, dcmd, classify_main, env=dsgen.ASAN_ENV, timeout=900 if ctx.quick else 3600)
     dsgen.run_types(one, dsgen.types(TYPES, 'VERIF_C03_TYPES'))
 
     def onew(t):
         ty, shape = t
         hcmd = [exew, ty]
-        dcmd = [sys.executable, feed, RNG_OPS, exew, ty, "--", drv, *shape]
+        dcmd = [sys.executable, feed, RNG_OPS, exew, ty, "--", drv, *shape, *legacy]
         return core.correspond(ctx, f"K-C03[{ty}]", wcases, hcmd, dcmd, classify_w, env=dsgen.ASAN_ENV, timeout=900 if ctx.quick else 3600)
     dsgen.run_types(onew, dsgen.types(TYPES_W, 'VERIF_C03_TYPES'))
     ctx.cov["evaluations"] += len(wcases) * len(TYPES_W)
 
 
+def classify_main(ops, res):
+    key, what = dsgen.classify(ops, res)
+    return refine_key(ops, res, key, what)
+
+
+def refine_key(ops, res, key, what):
+    """name the findings of this round by their stable keys"""
+    text = " ".join(res.oracle) + " " + res.stderr
+    at = res.diff_at if res.diff_at is not None else len(res.impl) - 1
+    opname = ops[at].split()[0] if 0 <= at < len(ops) else "?"
+    if opname in RAW and ("input-label-partition-differs" in text or (res.diff_at is not None and res.diff_at < len(res.impl) and res.impl[res.diff_at].startswith("exception"))):
+        return (f"F-C03-17:partial-mutation-on-shared:{opname}", f"`{opname[1:]}` on a dataset whose label (or weight) batches are shared modifies the inputs and then throws; ops {ops}")
+    if opname == "v2d" and res.diff_at is not None and not res.crash and not res.oracle:
+        a, b = res.impl[res.diff_at], res.model[res.diff_at] if res.diff_at < len(res.model) else ""
+        if re.sub(r"l?sh=\[[^\]]*\]", "sh", a) == re.sub(r"l?sh=\[[^\]]*\]", "sh", b):
+            return ("F-C03-16:toDataset-drops-shape:v2d", f"toDataset loses the element shape; ops {ops}")
+    if opname == "new" and res.crash and ("division by zero" in res.stderr or "FPE" in res.stderr) and any(len(o.split()) == 4 and o.startswith("new ") for o in ops):
+        return ("F-C03-18:empty-range-division-by-zero:new", f"createLabeledDataFromRange on an empty range divides by zero; ops {ops}")
+    if "bootstrap-" in text or (opname == "boot" and res.crash):
+        return ("F-C03-19:bootstrap-index-range:boot", f"bootstrap(data, k) with k != n indexes with the wrong range; ops {ops}")
+    return key, what
+
+
 def classify_w(ops, res):
     key, what = dsgen.classify(ops, res)
+    k2, w2 = refine_key(ops, res, key, what)
+    if k2 != key:
+        return k2, w2
     if key.startswith("oracle:") and any(o.split()[0] == "shuffle" for o in ops):
         return ("F13:weighted-shuffle-corrupts-inputs:shuffle",
                 f"BaseWeightedDataset::shuffle() separates/corrupts elements (swap of element proxies); ops {ops}")
